@@ -103,6 +103,17 @@ fn circuit_json(c: &Circuit) -> Value {
     json!({"n": c.inputs().len().min(CLAMP), "gates": gates})
 }
 
+/// short stable class of a panic message (letters of its first words)
+fn panic_json(msg: &str) -> Value {
+    let class: String = msg
+        .split(|c: char| !c.is_ascii_alphabetic())
+        .filter(|w| !w.is_empty())
+        .take(4)
+        .collect::<Vec<_>>()
+        .join("_");
+    json!({"panic": msg, "pclass": class})
+}
+
 fn hash_str(s: &str) -> u64 {
     let mut h = std::collections::hash_map::DefaultHasher::new();
     s.hash(&mut h);
@@ -163,7 +174,7 @@ fn log_simplify(
     let (res, nontrivial) = match r {
         Err(msg) => {
             st.panic += 1;
-            (json!({"panic": msg}), true)
+            (panic_json(&msg), true)
         }
         Ok(Err(l)) => {
             st.err += 1;
@@ -423,6 +434,10 @@ fn random_spec(rng: &mut Rng) -> CSpec {
     for _ in 0..rng.below(3) {
         let neg = rng.chance(1, 2);
         roots.push(match rng.below(10) {
+            0 if with_unknown && rng.chance(1, 3) => {
+                // a root that is itself an unknown input (passed through by apply_gate_map)
+                if rng.chance(1, 3) { L::Undef(neg) } else { L::In(n + rng.below(3), neg) }
+            }
             0 => L::In(rng.below(n), neg),
             1 => if neg { L::T } else { L::F },
             _ => L::G(rng.below(g), neg),
@@ -575,7 +590,7 @@ fn parse_call(fmt: Fmt, set: u8, bytes: &[u8], with_dbg: bool) -> (Value, Option
         }
     });
     match r {
-        Err(msg) => (json!({"panic": msg}), None),
+        Err(msg) => (panic_json(&msg), None),
         Ok(Err((class, ctxs))) => (json!({"err": class, "ctx": ctxs}), None),
         Ok(Ok((rest, p))) => {
             let big = p.circuit.num_gates() > BIG_GATES
@@ -587,7 +602,7 @@ fn parse_call(fmt: Fmt, set: u8, bytes: &[u8], with_dbg: bool) -> (Value, Option
                 // the projection itself runs library code (accessors, Debug)
                 match catch(|| problem_json(&p, with_dbg)) {
                     Ok(pj) => json!({"ok": {"p": pj, "rest": rest}}),
-                    Err(msg) => json!({"panic": format!("projection: {msg}")}),
+                    Err(msg) => panic_json(&format!("projection: {msg}")),
                 }
             };
             (v, Some(p))
@@ -656,7 +671,7 @@ fn log_parse(
         let opts = options(set);
         let r = catch(|| oxidd_parser::load_file(&path, &opts).is_some());
         let res = match r {
-            Err(msg) => json!({"panic": msg}),
+            Err(msg) => panic_json(&msg),
             Ok(true) => json!({"ok": {}}),
             Ok(false) => json!({"err": "diagnostic"}),
         };
@@ -905,6 +920,54 @@ fn fixed_seeds() -> Vec<Seed> {
     v
 }
 
+fn directed_inputs() -> Vec<(Fmt, u8, Vec<u8>)> {
+    let mut v: Vec<(Fmt, u8, Vec<u8>)> = Vec::new();
+    // symbol table entries for sections whose count is not in the header
+    for head in ["aag 0 0 0 0 0", "aig 0 0 0 0 0", "aag 1 1 0 0 0 0\n2", "aag 0 0 0 0 0 0 0"] {
+        for sym in ["i0 x", "l0 x", "o0 x", "b0 x", "c0 x", "j0 x", "f0 x", "i1 x", "o7 x"] {
+            v.push((Fmt::Aiger, 0, format!("{head}\n{sym}\n").into_bytes()));
+        }
+    }
+    for txt in [
+        "c vo []\np cnf 2 1\n1 2 0\n",
+        "c vo [[]]\np cnf 1 1\n1 0\n",
+        "c co []\np cnf 1 2\n1 0\n-1 0\n",
+        "c co [0]\np cnf 1 0\n",
+        "c co [0]\np sat 1\n1\n",
+        "c co [1, 0]\np cnf 1 1\n1 0\n",
+        "c 1 a\nc vo [2, 1]\np cnf 1 0\n",
+        "c 2 a\np cnf 1 0\n",
+        "c 1 a\nc 1 b\np cnf 1 0\n",
+        "c vo [1]\nc vo [1]\np cnf 1 0\n",
+        "c vo [1, 1]\np cnf 1 0\n",
+        "c vo [0]\np cnf 1 0\n",
+        "c vo [2]\np cnf 2 0\n",
+        "p cnf 1 1\n2 0\n",
+        "p cnf 1 1\n1 0\n1 0\n",
+        "p sat 1\n(2)\n",
+        "p sat 1\n)\n",
+        "p sat 1\n*(1 1) 1\n",
+    ] {
+        v.push((Fmt::Dimacs, 1, txt.as_bytes().to_vec()));
+    }
+    v.push((Fmt::Dimacs, 1, b"c 1 \xff\np cnf 1 0\n".to_vec()));
+    for txt in [
+        "c vo []\nnnf 1 0 1\nL 1\n",
+        "c vo [[]]\nnnf 1 0 2\nL 1\n",
+        "c 2 a\nnnf 1 0 1\nL 1\n",
+        "c 1 a\nc vo [2, 1]\nnnf 1 0 1\nL 1\n",
+        "nnf 0 0 0\n",
+        "nnf 1 0 0\nL 1\n",
+        "nnf 1 0 1\nO 2 2 0 0\n",
+        "nnf 2 1 1\nA 1 1\nA 1 0\n",
+        "nnf 1 1 1\nA 1 0\n",
+        "nnf 1 1 1\nA 1 1\n",
+    ] {
+        v.push((Fmt::Nnf, 1, txt.as_bytes().to_vec()));
+    }
+    v
+}
+
 const ALPHABET: &[u8] = b"0123456789 \n\r\t-+*=()[],xXcpaigloOAaBbLjf\x00\x01\x02\x7f\x80\xff";
 
 fn mutate(rng: &mut Rng, src: &[u8]) -> Vec<u8> {
@@ -998,6 +1061,14 @@ fn parse_mutate(args: &Args) {
                 log_parse(&mut out, &mut st, &mut ps, s.fmt, set, "mut", &s.name, &m, s.hidden_roots, t);
             }
         }
+    }
+
+    // directed non-members: constructs that make a parser report a position
+    // it has not seen in the input (absent optional header fields, empty
+    // order trees, clause tree for an empty CNF); always also through load_file
+    for (k, (fmt, set, bytes)) in directed_inputs().into_iter().enumerate() {
+        let name = format!("directed{k}");
+        log_parse(&mut out, &mut st, &mut ps, fmt, set, "mut", &name, &bytes, true, Some(&tmp));
     }
 
     // random and-inverter graphs, serialised as aag and as aig
